@@ -165,6 +165,11 @@ def gen_options(rng):
             cfg[f"conventions.{kind}.case"] = rng.choice(pool)
         if rng.random() < 0.1:
             cfg[f"conventions.{kind}.safe_prefix"] = rng.choice(["safe", "zz", "value"])  # a prefix equal to a name of the alphabet: known finding C07/custom-safe-prefix-collides-with-real-name (probe)
+    if cfg.get("output.unnest_classes") and cfg.get("output.structure_style") in ("namespaces", "namespace-clusters"):
+        # open known finding C02/no-namespace-class-in-namespaces-structure (probe in vf/props/c02.py): an unnested class of an
+        # unqualified local element has no namespace and lands in <package>.py next to the package directory; depending on the
+        # package naming convention that ends in CodegenError (circular dependencies) or in a package that cannot be imported
+        cfg["output.structure_style"] = "filenames"
     return cfg
 
 
